@@ -116,8 +116,17 @@ def gen(rng, k):
             # the requester has a multi-packet transfer to the same destination in progress when it sends the request
             script.append(dict(t=t, s=0, op='ca_send', ca=0, a=[0, 0xD0, dest, 6, dict(seed=rng.getrandbits(20), len=rng.choice([9, 20]))]))
         script.append(dict(t=t, s=0, op='ca_request', ca=0, a=[dp, pgn, dest]))
+    horizon = 1_240_000
+    waiting = [m for m in meta if m['phase'] == 'wait']
+    if waiting and req_has_addr and rng.random() < 0.6:
+        # ... and once more when the waiting CAs have become operational (250 ms after their claim): from then on they own
+        # their addresses like any other CA — whatever traffic for those addresses went by while they were still waiting
+        for m in waiting:
+            script.append(dict(t=1_300_000 + rng.randint(0, 100000), s=0, op='ca_request', ca=0,
+                               a=[0, rng.choice([0xFEE0 + m['ca'], 0xEE00]), rng.choice([m['addr'], m['addr'], 255])]))
+        horizon = 1_560_000
     script.sort(key=lambda e: e['t'])
-    sc = dict(stacks=stacks, lat=[rng.choice([0, 1, 5000])], jit=[1], script=script, horizon=1_240_000, meta=meta, requester=dict(addr=ra, has=req_has_addr))
+    sc = dict(stacks=stacks, lat=[rng.choice([0, 1, 5000])], jit=[1], script=script, horizon=horizon, meta=meta, requester=dict(addr=ra, has=req_has_addr))
     if tx_errors:
         sc['tx_errors'] = tx_errors
     if any(c.get('accept_all') for sd in stacks for c in sd['cas']):
@@ -151,7 +160,8 @@ def oracle(sc, res):
             safety_only.add((src, dest, pgn))
             continue
         for m in sc['meta']:
-            if m['phase'] == 'normal' and (m['addr'] == dest or dest == 255):
+            operational = m['phase'] == 'normal' or (m['phase'] == 'wait' and ev['t'] >= 1_260_000)
+            if operational and (m['addr'] == dest or dest == 255):
                 if pgn & 0xFFFFFF == 0xEE00:
                     exp_claims[(m['stack'], m['addr'], m['name'])] += 1
                 else:
@@ -173,7 +183,7 @@ def oracle(sc, res):
     for k in obs_req:
         if k not in exp_req:
             src, dest, pgn = k[2], k[3], k[4]
-            owner_ok = any(m['stack'] == k[0] and k[1] in m['reqs'] and m['phase'] == 'normal' and (m['addr'] == dest or dest == 255) for m in sc['meta'])
+            owner_ok = any(m['stack'] == k[0] and k[1] in m['reqs'] and m['phase'] in ('normal', 'wait') and (m['addr'] == dest or dest == 255) for m in sc['meta'])
             if not owner_ok:
                 v.append(dict(kind='request-callback-at-unaddressed-ca', key=k))
             elif (src, dest, pgn) not in safety_only:
